@@ -10,13 +10,13 @@ def run(tier):
     to = 600 if tier == "quick" else 3600
     # (spec, ops, targets, split the first op over parallel conditions?)
     if tier == "quick":
-        plan = [("amb", 2, 2, True), ("prefix", 1, 2, False), ("open", 1, 2, False), ("list", 1, 1, False), ("rec", 1, 1, False)]
+        plan = [("amb", 2, 2, True), ("prefix", 1, 2, False), ("open", 1, 1, False), ("rec", 1, 1, False)]
     else:
         plan = [("amb", 3, 2, True), ("prefix", 2, 2, True), ("open", 2, 2, True), ("rec", 2, 1, True), ("list", 2, 1, True)]
     for spec, nops, targets, split in plan:
         for target in range(targets):
             for op0 in (range(9) if split else [-1]):
-                conds.append(Cond("h_parse_hist.py", "history_independent", to, twin="reach" if (target == 0 and op0 in (-1, 0, 2)) else None,
+                conds.append(Cond("h_parse_hist.py", "history_independent", to, twin="reach" if (target == 0 and op0 in (-1, 0) and spec in ("amb", "prefix")) else None,
                                   path_timeout=to / 2, env={"H_SPEC": spec, "H_OPS": str(nops), "H_TARGET": str(target), "H_OP0": str(op0)}))
     run.run_conditions(conds, conformance_harnesses=["h_parse_hist.py"])
     run.encoded = ["Parser.parse_forest/parse_multiple/parse/_parse_forest/collapse"] + PARSER_FUNCS
